@@ -1590,11 +1590,10 @@ fn drive_dq(a: &Args, name: &str) -> Value {
         run_steps(&mut tr, None, steps, &mut rng, json!({"kind": "random", "seed": a.seed}));
     }
     // growth while wrapped at every head offset (growable queues)
-    if fam == "autogrow" {
-        let c0 = {
-            let q = make_dq(name).unwrap();
-            q.cap()
-        };
+    // (quick tier: only for the requested capacities that are not rounded up - cap_3 behaves as cap_4, cap_5..7 as cap_8)
+    let c0 = if fam == "autogrow" { make_dq(name).map_or(0, |q| q.cap()) } else { 0 };
+    let requested = variant_of(name).trim_start_matches("cap_").parse::<usize>().unwrap_or(c0);
+    if fam == "autogrow" && (a.thorough() || requested == c0) {
         let mut nextval = 1u32;
         let modes: Vec<usize> = if a.thorough() { vec![0, 1, 2, 3] } else { vec![0, 1, 2, 3] };
         for h in 0..c0 {
